@@ -26,7 +26,9 @@ from harness.vlib import coq_str, coq_z
 # config:      {"plain": bool (class Config: instead of class Config(BaseConfig):),
 #               "inherit": None | class name (class Config(<name>.Config):), and per option None = not written:
 #               "aliases": {name: alias}|None, "allow": bool|None, "forbid": bool|None}
-# level:       {"cls": "A"|"B"|"K", "decls": [declaration...], "config": None | config}
+# level:       {"cls": "A"|"B"|"K", "decls": [declaration...], "config": None | config,
+#               "hook": None | [("drop", k) | ("put", k, v) | ("rename", a, b)]  (a __pre_deserialize__ classmethod)}
+#               config may carry "dialect_support": True (code_generation_options = [ADD_DIALECT_SUPPORT])
 # class spec:  {"levels": [level...]  (base-most first, K last), "classvar": [name] (ClassVar members of K),
 #               "initvar": [name] (InitVar members of K, with default), "shape": "chain" | "roots" (K(B, A): the
 #               ancestors are unrelated classes), "generic": bool (A is Generic[T], bound to int by its heirs),
@@ -97,8 +99,13 @@ def class_source(spec) -> str:
          "from mashumaro.mixins.orjson import DataClassORJSONMixin",
          "from mashumaro.mixins.msgpack import DataClassMessagePackMixin",
          "from mashumaro.mixins.yaml import DataClassYAMLMixin",
-         "from mashumaro.config import BaseConfig",
+         "from mashumaro.config import BaseConfig, ADD_DIALECT_SUPPORT",
+         "from mashumaro.dialect import Dialect",
          "from mashumaro.types import Alias, Discriminator",
+         "",
+         "class D1(Dialect):",
+         "    serialize_by_alias = True",
+         "    omit_none = True",
          "",
          "T = TypeVar('T')",
          ""]
@@ -166,8 +173,24 @@ def class_source(spec) -> str:
                 L.append(f"        allow_deserialization_not_by_alias = {c['allow']!r}")
             if c["forbid"] is not None:
                 L.append(f"        forbid_extra_keys = {c['forbid']!r}")
+            if c.get("dialect_support"):
+                L.append("        code_generation_options = [ADD_DIALECT_SUPPORT]")
             if len(L) == n0:
                 L.append("        pass")
+            body += 1
+        if lv.get("hook") is not None:
+            L.append("    @classmethod")
+            L.append("    def __pre_deserialize__(cls, d):")
+            L.append("        d = dict(d)")
+            for op in lv["hook"]:
+                if op[0] == "drop":
+                    L.append(f"        d.pop({op[1]!r}, None)")
+                elif op[0] == "put":
+                    L.append(f"        d[{op[1]!r}] = {op[2]!r}")
+                else:
+                    L.append(f"        if {op[1]!r} in d:")
+                    L.append(f"            d[{op[2]!r}] = d.pop({op[1]!r})")
+            L.append("        return d")
             body += 1
         if not body:
             L.append("    pass")
@@ -208,6 +231,14 @@ def o_fields(spec) -> list:
 DEFAULT_CFG = {"aliases": {}, "allow": False, "forbid": False}
 
 
+def o_config_raw(spec):
+    """the nearest Config declaration (for options that are not part of the key rules)"""
+    for lv in reversed(spec["levels"]):
+        if lv["config"] is not None:
+            return lv["config"]
+    return None
+
+
 def o_config(spec) -> dict:
     """Config is a plain class attribute: the nearest class that defines one supplies it; an option not written in
     it is looked up in the Config it derives from, if any, else it has its documented default."""
@@ -219,6 +250,38 @@ def o_config(spec) -> dict:
         base = cur if c["inherit"] is not None else DEFAULT_CFG
         cur = {k: (c[k] if c[k] is not None else base[k]) for k in ("aliases", "allow", "forbid")}
     return cur
+
+
+def o_hook(spec):
+    """__pre_deserialize__ is found by attribute lookup: the nearest class that defines one"""
+    for lv in reversed(spec["levels"]):
+        if lv.get("hook") is not None:
+            return lv["hook"]
+    return None
+
+
+def o_apply_hook(spec, d: dict) -> dict:
+    h = o_hook(spec)
+    if h is None:
+        return d
+    items = list(d.items())
+    for op in h:
+        if op[0] == "drop":
+            items = [(k, v) for k, v in items if k != op[1] or type(k) is not type(op[1])]
+        elif op[0] == "put":
+            if any(k == op[1] and type(k) is type(op[1]) for k, _ in items):
+                items = [(k, op[2] if (k == op[1] and type(k) is type(op[1])) else v) for k, v in items]
+            else:
+                items.append((op[1], op[2]))
+        else:
+            hit = [v for k, v in items if k == op[1] and type(k) is type(op[1])]
+            if hit:
+                items = [(k, v) for k, v in items if not (k == op[1] and type(k) is type(op[1]))]
+                if any(k == op[2] and type(k) is type(op[2]) for k, _ in items):
+                    items = [(k, hit[0] if (k == op[2] and type(k) is type(op[2])) else v) for k, v in items]
+                else:
+                    items.append((op[2], hit[0]))
+    return dict(items)
 
 
 def o_alias(spec, f):
@@ -276,9 +339,10 @@ def o_keymodel(spec, d: dict):
 # running the real implementation
 # ---------------------------------------------------------------------------
 
-def observe(spec, call, d: dict):
+def observe(spec, call, d: dict, seen=None):
     """Canonical outcome of call(d): ("inst", [(fname, value)]) | ("missing", fname)
-    | ("extra", [keys in input order]) | ("exc", text)."""
+    | ("extra", [keys in input order]) | ("exc", text).  seen: the mapping the key rules see (after a pre-hook)."""
+    seen = d if seen is None else seen
     from mashumaro.exceptions import ExtraKeysError, MissingField
     try:
         obj = call(dict(d))
@@ -288,9 +352,9 @@ def observe(spec, call, d: dict):
             ekl = list(ek)
         except TypeError:
             return ("exc", f"ExtraKeysError.extra_keys not iterable: {ek!r}")
-        if len(set(ekl)) != len(ekl) or any(k not in d for k in ekl):
+        if len(set(ekl)) != len(ekl) or any(k not in seen for k in ekl):
             return ("exc", f"ExtraKeysError.extra_keys {ek!r} is not a set of input keys")
-        return ("extra", [k for k in d if k in ek])
+        return ("extra", [k for k in seen if k in ek])
     except MissingField as e:
         return ("missing", e.field_name)
     except Exception as e:  # anything else is never expected here
@@ -340,6 +404,10 @@ def entries(spec, mod):
     elif m == "yaml":
         out.append(("K.from_yaml", lambda d: K.from_yaml(yaml.safe_dump(d)), True))
     out.append(("BasicDecoder(K).decode", BasicDecoder(K).decode, False))
+    # a dialect never changes which key a field is read from
+    out.append(("BasicDecoder(K, default_dialect=D1).decode", BasicDecoder(K, default_dialect=mod.D1).decode, False))
+    if m and (o_config_raw(spec) or {}).get("dialect_support"):
+        out.append(("K.from_dict(dialect=D1)", lambda d: K.from_dict(d, dialect=mod.D1), False))
     jd, od, md, yd = JSONDecoder(K), ORJSONDecoder(K), MessagePackDecoder(K), YAMLDecoder(K)
     out.append(("JSONDecoder(K).decode", lambda d: jd.decode(json.dumps(d)), True))
     out.append(("ORJSONDecoder(K).decode", lambda d: od.decode(orjson.dumps(d)), True))
@@ -515,6 +583,28 @@ def gen_spec(rng, force=None):
                                 "allow": (rng.random() < 0.5) if rng.random() < written else None,
                                 "forbid": (rng.random() < 0.5) if rng.random() < written else None}
                 lower = j
+    # __pre_deserialize__ hooks: K or an ancestor rewrites the mapping first (a farther one is shadowed)
+    if "allow" not in force and rng.random() < 0.3:
+        pool = names + [a for a in all_alias_strings({"levels": levels}) if a is not None] + ["q", "old", "None", 1, None]
+
+        def ops():
+            out = []
+            for _ in range(rng.choice([1, 1, 2, 3])):
+                r = rng.random()
+                if r < 0.3:
+                    out.append(("drop", rng.choice(pool)))
+                elif r < 0.5:
+                    out.append(("put", rng.choice(pool), 900 + len(out)))
+                else:
+                    a, b = rng.choice(pool), rng.choice(pool)
+                    out.append(("rename", a, b))
+            return out
+        hl = rng.randrange(depth)
+        levels[hl]["hook"] = ops()
+        if hl > 0 and rng.random() < 0.4:
+            levels[rng.randrange(hl)]["hook"] = ops()
+    if levels[-1]["config"] is not None and levels[-1]["config"]["inherit"] is None and rng.random() < 0.35:
+        levels[-1]["config"]["dialect_support"] = True
     return {"levels": levels, "classvar": classvar, "initvar": initvar, "shape": shape, "generic": generic, "discr": discr,
             "mixin": force["mixin"] if "mixin" in force else rng.choice([None, None, "dict", "dict", "json", "orjson", "msgpack", "yaml"])}
 
@@ -648,6 +738,17 @@ def c_spec(spec) -> str:
     return f"[{'; '.join(lv_txt)}]"
 
 
+def c_hooks(spec) -> str:
+    def op(o):
+        if o[0] == "drop":
+            return f"HDrop {c_key(o[1])}"
+        if o[0] == "put":
+            return f"HPut {c_key(o[1])} {coq_z(o[2])}"
+        return f"HRename {c_key(o[1])} {c_key(o[2])}"
+    return "[" + "; ".join("None" if lv.get("hook") is None else "(Some [" + "; ".join(op(o) for o in lv["hook"]) + "])"
+                           for lv in spec["levels"]) + "]"
+
+
 def c_val(v) -> str:
     return coq_z(NONE_CODE if v is None else v)
 
@@ -678,7 +779,7 @@ def c_obs(o) -> str:
     return '(VMissing "<unexpected exception>")'     # never equal to a model outcome (no such field name)
 
 
-CASE_TYPE = "list level * option (option string) * list Z * dict * observation"
+CASE_TYPE = "list level * list (option (list hookop)) * option (option string) * list Z * dict * observation"
 
 
 def coq_check(name, model, items, ok_fun, ctx, shard=500, ctype=CASE_TYPE):
@@ -978,7 +1079,7 @@ def nested_stream(ctx, rng, k4_ok):
 
 THEOREMS = ["K4_precedence", "K4_key_plan", "K4_allowed_keys", "C09_impl_is_code", "C09_keys", "C09_keys_hier",
             "C09_nearest_declaration", "C09_nearest_config", "C09_get_config", "C09_builder_config", "C09_fields_unique", "C09_alias_from_sources",
-            "C09_mro_chain", "C09_mro_roots", "C09_own_view_finished", "C09_own_view_raw", "C09_nested", "C09_nested_inner_options",
+            "C09_mro_chain", "C09_mro_roots", "C09_own_view_finished", "C09_own_view_raw", "C09_nested", "C09_nested_inner_options", "C09_pre_hook", "C09_nearest_hook", "C09_hook_rename",
             "C09_field_key", "C09_outcome", "C09_alias_wins", "C09_fallback", "C09_accepted_covers_reads",
             "C09_reads_allowed", "C09_extra_members", "C09_extra_exact", "C09_ignored", "C09_forbidden_reported"]
 
@@ -1123,6 +1224,8 @@ def run(ctx: vlib.Ctx):
                                      f"ClassVar:{len(spec['classvar'])} InitVar:{len(spec['initvar'])} "
                                      f"kw_only:{sum(1 for f in fields if f['kw'])}")
         nullable = nullable_class(spec)
+        hooked = o_hook(spec) is not None
+        ctx.hist("pre_hook", "none" if not hooked else f"ops={len(o_hook(spec))} in {'K' if spec['levels'][-1].get('hook') is not None else 'ancestor'}")
         ctx.hist("values", "ints and None" if nullable else "ints")
         coq_defs.append(f"Definition c{ci} : list level := {c_spec(spec)}.")
         dfl = c_defaults(spec)
@@ -1134,7 +1237,8 @@ def run(ctx: vlib.Ctx):
         dicts += boundary_dicts(spec)
         for d in dicts:
             ks = list(d)
-            exp = o_keymodel(spec, d)
+            dh = o_apply_hook(spec, d)                # what the keys are resolved on
+            exp = o_keymodel(spec, dh)
             obs_all = []
             for ename, call, need_str in ents:
                 if need_str and not str_keys(d):
@@ -1142,12 +1246,14 @@ def run(ctx: vlib.Ctx):
                 via_base = "Base" in ename
                 dd = d
                 if via_base:
+                    if hooked:
+                        continue                      # the dispatcher reads the tag before K's hook runs
                     if spec["discr"][1] not in d:
                         continue                      # MissingDiscriminatorError: not a key-resolution case
                     # the tag key is accepted and never read: same outcome as K's own entry point on d
                     dd = dict(d)
                     dd[spec["discr"][1]] = TAG
-                obs = observe(spec, call, dd)
+                obs = observe(spec, call, dd, seen=dh if hooked else None)
                 ctx.count((ci, repr(sorted(d.items(), key=repr)), ename))
                 ctx.hist("outcome", obs[0] + (" (via Base)" if via_base else ""))
                 ctx.hist("entry", ename)
@@ -1161,22 +1267,22 @@ def run(ctx: vlib.Ctx):
                              {"kind": kind, "observed": obs[0], "expected": exp[0]})
             # all entry points agree? (if not, the oracle has already flagged at least one of them)
             obs0 = obs_all[0]
-            coq_cases.append((ci, coq_defs[-1], f"(c{ci}, {c_discr(spec)}, {dfl}, {c_dict(d)}, {c_obs(obs0)})"))
+            coq_cases.append((ci, coq_defs[-1], f"(c{ci}, {c_hooks(spec)}, {c_discr(spec)}, {dfl}, {c_dict(d)}, {c_obs(obs0)})"))
             cases.append((spec, src, ents[0][0], d, obs0))
             if len(ctx.coverage["samples"]) < 6 and len(ks) >= 2 and rng.random() < 0.01:
                 ctx.sample({"class": src, "input": repr(d), "observed": repr(obs0)})
         drop_module(mod)
 
     # ---- correspondence: Coq models vs the real implementation, same cases
-    ok_impl = ("fun c => match c with (h, dk, dfl, d, o) => match impl_from_hier h dk d with "
+    ok_impl = ("fun c => match c with (h, hk, dk, dfl, d, o) => match impl_hooked hk h dk d with "
                "Ok r => observation_eqb (observe dfl r) o | Raise _ => false end end")
-    ok_ref = ("fun c => match c with (h, dk, dfl, d, o) => "
-              "observation_eqb (observe dfl (keymodel (class_of h dk) d)) o end")
-    ok_both = ("fun c => match c with (h, dk, dfl, d, o) => match impl_from_hier h dk d with "
+    ok_ref = ("fun c => match c with (h, hk, dk, dfl, d, o) => "
+              "observation_eqb (observe dfl (keymodel (class_of h dk) (apply_hook (nearest_hook hk) d))) o end")
+    ok_both = ("fun c => match c with (h, hk, dk, dfl, d, o) => match impl_hooked hk h dk d with "
                "Ok r => observation_eqb (observe dfl r) o | Raise _ => false end "
-               "&& observation_eqb (observe dfl (keymodel (class_of h dk) d)) o end")
-    IMPL = ("KeyModel KeyImpl KeyProofs KeyCfg PyK_alias", "From VerifGen Require Import K4.", ["theories/KeyCfg.vo"])
-    REF = ("KeyModel", "", ["theories/KeyModel.vo"])
+               "&& observation_eqb (observe dfl (keymodel (class_of h dk) (apply_hook (nearest_hook hk) d))) o end")
+    IMPL = ("KeyModel KeyImpl KeyProofs KeyCfg KeyRewrite KeyHook PyK_alias", "From VerifGen Require Import K4.", ["theories/KeyHook.vo"])
+    REF = ("KeyModel KeyRewrite", "", ["theories/KeyRewrite.vo"])
 
     def report(name, bad, log, n):
         if bad is None:
@@ -1285,8 +1391,9 @@ def replay(rep: dict) -> int:
     if call is None:
         print("unknown entry", rep["entry"])
         return 2
-    obs = observe(spec, call, d)
-    exp = o_keymodel(spec, d)
+    dh = o_apply_hook(spec, d)
+    obs = observe(spec, call, d, seen=dh)
+    exp = o_keymodel(spec, dh)
     print(rep["source"])
     print("entry   ", rep["entry"])
     print("input   ", d)
